@@ -10,6 +10,7 @@ import PercevalModel.Lemmas.C02Step
 import PercevalModel.Lemmas.C02Perm
 import PercevalModel.Lemmas.C02Sess
 import PercevalModel.Lemmas.C02SessK
+import PercevalModel.Lemmas.C02More
 import Mathlib.Algebra.Star.Basic
 import Mathlib.Tactic.FieldSimp
 
@@ -720,8 +721,223 @@ example : (runK stepP {} [.setCircuit 3, .setInput [1, 1, 0], .setMask [[some 1,
       (fun r => match r with | .ok (some l) => l.length | _ => 0)
     = [0, 0, 0, 5, 3, 3] := by decide +kernel
 
+/-! ### wave 7: hypotheses discharged, compositions, bounds -/
+
+/-- **`stepper_run_sound` without the photon-number hypothesis**: for EVERY output `t` of the right
+length — also one of another photon number, where both sides vanish — the vector built by
+`Stepper.compile` holds the amplitude of the circuit's full matrix (`hst` of `stepper_run_sound`
+discharged with `stepper_run_keys`) -/
+theorem stepper_run_sound_total [CommRing R] {M : ℕ} (inv : List ℕ → R)
+    (hinv : ∀ v, inv v * (prodFact v : R) = 1) (comps : List (Comp R)) (hfit : Fits M comps)
+    (s t : List ℕ) (hs : s.length = M) (ht : t.length = M) :
+    svGet (stepperRun inv comps s) t = pamp (compsMatrix M comps) s t := by
+  by_cases hst : s.sum = t.sum
+  · exact stepper_run_sound inv hinv comps hfit s t hs ht hst
+  · rw [pamp_zero_of_sum_ne _ s t hst]
+    apply svGet_eq_zero_of_not_key _ (stepper_run_keys inv hinv comps hfit s hs)
+    intro hmem
+    exact hst ((mem_allStates_iff M s.sum t).1 hmem).2.symm
+
+/-- a state of another number of modes is never a component of the Stepper's result -/
+theorem stepper_run_offspace [CommRing R] {M : ℕ} (inv : List ℕ → R)
+    (hinv : ∀ v, inv v * (prodFact v : R) = 1) (comps : List (Comp R)) (hfit : Fits M comps)
+    (s t : List ℕ) (hs : s.length = M) (ht : t.length ≠ M) :
+    svGet (stepperRun inv comps s) t = 0 := by
+  apply svGet_eq_zero_of_not_key _ (stepper_run_keys inv hinv comps hfit s hs)
+  intro hmem
+  exact ht ((mem_allStates_iff M s.sum t).1 hmem).1
+
+/-- the result of `Stepper.compile` on a circuit with PERM components stays in the `(M, n)` space of
+the input (the counterpart of `stepper_run_keys`) -/
+theorem stepper_runS_keys [CommRing R] {M : ℕ} (inv : List ℕ → R)
+    (hinv : ∀ v, inv v * (prodFact v : R) = 1) (steps : List (Step R))
+    (hfit : ∀ st ∈ steps, StepFits M st) (s : List ℕ) (hs : s.length = M) :
+    KeysIn M s.sum (stepperRunS inv steps s) := by
+  refine (stepperRunS_aux inv hinv s hs steps hfit [(s, (prodFact s : R))] 1 ?_ ?_).1
+  · intro p hp
+    rw [List.mem_singleton.1 hp]
+    exact (mem_allStates_iff M s.sum s).2 ⟨hs, rfl⟩
+  · intro u hu
+    obtain ⟨hul, hun⟩ := (mem_allStates_iff M s.sum u).1 hu
+    rw [pamp_identity s u hs hul hun.symm]
+    simp [svGet, eq_comm]
+
+/-- **`stepper_runS_sound` without the photon-number hypothesis** (PERM shortcut included) -/
+theorem stepper_runS_sound_total [CommRing R] {M : ℕ} (inv : List ℕ → R)
+    (hinv : ∀ v, inv v * (prodFact v : R) = 1) (steps : List (Step R))
+    (hfit : ∀ st ∈ steps, StepFits M st)
+    (s t : List ℕ) (hs : s.length = M) (ht : t.length = M) :
+    svGet (stepperRunS inv steps s) t = pamp (stepsMatrix M steps) s t := by
+  by_cases hst : s.sum = t.sum
+  · exact stepper_runS_sound inv hinv steps hfit s t hs ht hst
+  · rw [pamp_zero_of_sum_ne _ s t hst]
+    apply svGet_eq_zero_of_not_key _ (stepper_runS_keys inv hinv steps hfit s hs)
+    intro hmem
+    exact hst ((mem_allStates_iff M s.sum t).1 hmem).2.symm
+
+/-- **the three modelled engines agree** on every circuit given as a component list: the Naive
+engine (loop-built sub-matrix, shortcuts), the SLOS layer recursion — both on the circuit's full
+matrix — and the Stepper run component by component on the slices return the same amplitude for every
+input and every output of the circuit's size, any photon numbers -/
+theorem engines_agree [CommRing R] {M : ℕ} (inv : List ℕ → R)
+    (hinv : ∀ v, inv v * (prodFact v : R) = 1) (comps : List (Comp R)) (hfit : Fits M comps)
+    (s t : List ℕ) (hs : s.length = M) (ht : t.length = M) :
+    naivePamp (compsMatrix M comps) s t = slosPamp (compsMatrix M comps) s t ∧
+    slosPamp (compsMatrix M comps) s t = svGet (stepperRun inv comps s) t := by
+  rw [naivePamp_eq_pamp, slosPamp_eq_pamp _ s t ht,
+    stepper_run_sound_total inv hinv comps hfit s t hs ht]
+  exact ⟨rfl, rfl⟩
+
+/-- every probability of the model is non-negative, hence so is the mass a mask keeps -/
+theorem keptMass_nonneg {m : ℕ} (U : Matrix (Fin m) (Fin m) GQ) (s : List ℕ)
+    (masks : List (List (Option ℕ))) : 0 ≤ keptMass U s masks :=
+  sum_map_nonneg _ _ fun t _ => prob_nonneg U s t
+
+/-- **a mask never keeps more than the whole mass** of a unitary circuit: the normalisation of a
+masked `evolve()` divides by a number in `[0, 1]` -/
+theorem keptMass_le_one {m : ℕ} (U : Matrix (Fin m) (Fin m) GQ) (hU : IsUnitary U)
+    (s : List ℕ) (hs : s.length = m) (masks : List (List (Option ℕ))) : keptMass U s masks ≤ 1 := by
+  rw [← dist_sums_to_one_GQ U hU s hs]
+  exact sum_map_sublist_le (bulk_states_spec m s masks).2.2 _ fun t _ => prob_nonneg U s t
+
+/-- the kept mass vanishes exactly when every kept state has probability zero (then the normalised
+`evolve()` result is undefined: the case the correspondence does not compare) -/
+theorem keptMass_eq_zero_iff {m : ℕ} (U : Matrix (Fin m) (Fin m) GQ) (s : List ℕ)
+    (masks : List (List (Option ℕ))) :
+    keptMass U s masks = 0 ↔ ∀ t ∈ bulkStates m s masks, prob U s t = 0 :=
+  sum_map_eq_zero_iff _ _ fun t _ => prob_nonneg U s t
+
+/-- **`evolveProbs_sum_one` as an equivalence**: the hypothesis `keptMass ≠ 0` is necessary — the
+renormalised masked distribution sums to one exactly when the mask keeps some mass (with `x / 0 = 0`
+it sums to zero otherwise) -/
+theorem evolveProbs_sum_one_iff {m : ℕ} (U : Matrix (Fin m) (Fin m) GQ) (s : List ℕ)
+    (masks : List (List (Option ℕ))) :
+    ((evolveProbs U s masks).map Prod.snd).sum = 1 ↔ keptMass U s masks ≠ 0 := by
+  refine ⟨fun h h0 => ?_, evolveProbs_sum_one U s masks⟩
+  have hz : ((evolveProbs U s masks).map Prod.snd).sum = 0 := by
+    unfold evolveProbs
+    rw [List.map_map]
+    apply List.sum_eq_zero
+    intro x hx
+    obtain ⟨t, _, rfl⟩ := List.mem_map.1 hx
+    simp [h0]
+  rw [hz] at h
+  exact zero_ne_one h
+
+/-- **renormalisation under a mask only raises probabilities**: for a unitary circuit and a mask that
+keeps some mass, every value of the normalised masked `evolve()` is at least the unmasked probability
+of the same state -/
+theorem evolveProbs_ge_prob {m : ℕ} (U : Matrix (Fin m) (Fin m) GQ) (hU : IsUnitary U)
+    (s : List ℕ) (hs : s.length = m) (masks : List (List (Option ℕ)))
+    (h : keptMass U s masks ≠ 0) :
+    ∀ p ∈ evolveProbs U s masks, prob U s p.1 ≤ p.2 := by
+  intro p hp
+  obtain ⟨t, _, rfl⟩ := List.mem_map.1 hp
+  have hpos : 0 < keptMass U s masks := lt_of_le_of_ne (keptMass_nonneg U s masks) (Ne.symm h)
+  show prob U s t ≤ prob U s t / keptMass U s masks
+  rw [le_div_iff₀ hpos]
+  exact mul_le_of_le_one_right (prob_nonneg U s t) (keptMass_le_one U hU s hs masks)
+
+/-- non-vacuity / necessity: a mask that keeps no mass (`exD` is diagonal: `|1,1>` stays), sum zero -/
+example : keptMass exD [1, 1] [[some 2, none]] = 0 ∧
+    ((evolveProbs exD [1, 1] [[some 2, none]]).map Prod.snd).sum = 0 := by decide +kernel
+
+/-- non-vacuity of `evolveProbs_ge_prob` / `keptMass_le_one`: a unitary, a mask keeping part of the mass -/
+example : IsUnitary exU ∧ ([1, 1] : List ℕ).length = 2 ∧ keptMass exU [1, 1] [[some 1, none]] ≠ 0 ∧
+    keptMass exU [1, 1] [[some 1, none]] < 1 :=
+  ⟨by unfold IsUnitary; decide +kernel, rfl, by decide +kernel, by decide +kernel⟩
+
+/-- **`slosPamp_eq_pamp` without its hypothesis**: the SLOS layer recursion over the `m` modes of the
+matrix equals the permanent for an output list of ANY length (a photon recorded beyond the matrix
+meets only zero entries on both sides; a missing mode holds no photon) — `ht : t.length = m` discharged -/
+theorem slosPamp_eq_pamp_any [CommRing R] {m : ℕ} (U : Matrix (Fin m) (Fin m) R) (s t : List ℕ) :
+    slosPamp U s t = pamp U s t := by
+  unfold slosPamp
+  by_cases h : s.sum = t.sum
+  · rw [if_pos h, pamp_eq_permRec U s t h,
+      ← slosCoef_eq_permRec_any U (expand s) t (by rw [expand_length, h])]
+    ring
+  · rw [if_neg h, pamp_zero_of_sum_ne U s t h]
+
+/-- … hence the Naive and the SLOS model agree on every matrix and every pair of lists, no side
+condition at all -/
+theorem slosPamp_eq_naivePamp [CommRing R] {m : ℕ} (U : Matrix (Fin m) (Fin m) R) (s t : List ℕ) :
+    slosPamp U s t = naivePamp U s t := by
+  rw [slosPamp_eq_pamp_any, naivePamp_eq_pamp]
+
+/-- **the Stepper's output distribution of a circuit of unitary components sums to one**: the
+squared moduli of the vector built slice by slice by `Stepper.compile`, normalised by `∏s!∏t!`, over
+the `(M, n)` space of the input (composition of `stepper_run_sound_GQ`, unitarity of the embedded
+product and `dist_sums_to_one_GQ`) -/
+theorem stepper_distribution_sums_to_one {M : ℕ} (comps : List (Comp GQ)) (hfit : Fits M comps)
+    (hU : ∀ c ∈ comps, IsUnitary c.B) (s : List ℕ) (hs : s.length = M) :
+    ((allStates M s.sum).map fun t =>
+      GQ.normSq (svGet (stepperRun FockComp.gqInv comps s) t) /
+        ((prodFact s : ℚ) * (prodFact t : ℚ))).sum = 1 := by
+  rw [← dist_sums_to_one_GQ (compsMatrix M comps) (compsMatrix_isUnitary comps hfit hU) s hs]
+  apply congrArg
+  apply List.map_congr_left
+  intro t ht
+  obtain ⟨hl, hn⟩ := (mem_allStates_iff M s.sum t).1 ht
+  rw [stepper_run_sound_GQ comps hfit s t hs hl hn.symm]
+  rfl
+
+/-- non-vacuity: two overlapping unitary components -/
+example : ∀ c ∈ [(⟨2, 0, exU⟩ : Comp GQ), ⟨2, 1, exU⟩], IsUnitary c.B := by
+  intro c hc
+  simp only [List.mem_cons, List.not_mem_nil, or_false] at hc
+  rcases hc with rfl | rfl <;> (unfold IsUnitary; decide +kernel)
+
+/-- **every row of the MPS two-mode tensor of a unitary block has unit norm**: the entries as the code
+stores them are `tm2·√(m1! m2!)/√(n1! n2!)`, so their squared moduli `|tm2|²·m1! m2!/(n1! n2!)` over
+the outputs `(m1, m2)` of the same photon number sum to one — for every unitary 2×2 block over `ℚ[i]`
+and all photon numbers within the tensor (composition of `mps_tm2_eq_pamp` and `dist_sums_to_one_GQ`) -/
+theorem mps_tm2_unitary_row_sums_to_one (U : Matrix (Fin 2) (Fin 2) GQ) (hU : IsUnitary U)
+    (nmax n1 n2 : ℕ) (hn : n1 + n2 ≤ nmax) :
+    ((allStates 2 (n1 + n2)).map fun t =>
+      GQ.normSq (tm2 U nmax n1 n2 (t.getD 0 0) (t.getD 1 0)) *
+        (((t.getD 0 0).factorial * (t.getD 1 0).factorial : ℕ) : ℚ) /
+          ((n1.factorial * n2.factorial : ℕ) : ℚ)).sum = 1 := by
+  have h := dist_sums_to_one_GQ U hU [n1, n2] rfl
+  simp only [List.sum_cons, List.sum_nil, add_zero] at h
+  rw [← h]
+  apply congrArg
+  apply List.map_congr_left
+  intro t ht
+  obtain ⟨hl, _⟩ := (mem_allStates_iff 2 (n1 + n2) t).1 ht
+  generalize ha : t.getD 0 0 = a
+  generalize hb : t.getD 1 0 = b
+  have ht2 : t = [a, b] := by rw [← ha, ← hb]; exact eq_pair_of_length_two t hl
+  rw [ht2]
+  unfold prob
+  rw [← mps_tm2_eq_pamp U nmax n1 n2 a b hn, normSq_natCast_mul, prodFact_pair, prodFact_pair]
+  have hA : ((a.factorial * b.factorial : ℕ) : ℚ) ≠ 0 :=
+    Nat.cast_ne_zero.2 (Nat.mul_ne_zero (Nat.factorial_ne_zero _) (Nat.factorial_ne_zero _))
+  have hN : ((n1.factorial * n2.factorial : ℕ) : ℚ) ≠ 0 :=
+    Nat.cast_ne_zero.2 (Nat.mul_ne_zero (Nat.factorial_ne_zero _) (Nat.factorial_ne_zero _))
+  rw [div_eq_div_iff hN (mul_ne_zero hN hA)]
+  ring
+
+/-- non-vacuity: `exU` is unitary; the row `(2,1)` of its tensor for three photons has a bunched entry -/
+example : IsUnitary exU ∧ 2 + 1 ≤ 3 ∧ tm2 exU 3 2 1 3 0 ≠ 0 :=
+  ⟨by unfold IsUnitary; decide +kernel, by decide, by decide +kernel⟩
+
+/-- necessity of `ht` in `stepper_run_sound_total`: for an output list of another length the Stepper's
+vector has no component while the specification amplitude (which only reads the modes that exist) is 1 -/
+example : svGet (stepperRun FockComp.gqInv ([] : List (Comp GQ)) [1]) [1, 0] = 0 ∧
+    pamp (compsMatrix 1 ([] : List (Comp GQ))) [1] [1, 0] = 1 := by
+  refine ⟨by decide +kernel, ?_⟩
+  rw [pamp_single _ _ _ rfl rfl]
+  simp [compsMatrix, entry, expand, expandFrom]
+
 /-!
-Not proved: nothing of the design's stretch list remains open.  What stays outside any theorem: the
+Not proved: nothing of the design's stretch list remains open.  Wave 7 discharged `hst` of the Stepper
+theorems (`stepper_run_sound_total`, `stepper_runS_sound_total`; `ht` is necessary, see the example) and `ht` of
+`slosPamp_eq_pamp` (`slosPamp_eq_pamp_any`), made `evolveProbs_sum_one` an equivalence, bounded the kept mass
+(`keptMass_nonneg`, `keptMass_le_one`, `keptMass_eq_zero_iff`, `evolveProbs_ge_prob`) and composed the unitary
+normalisation with the Stepper and the MPS tensor (`stepper_distribution_sums_to_one`,
+`mps_tm2_unitary_row_sums_to_one`); the last two and the kept-mass bounds are over `ℚ[i]` only (the order of `ℚ` is
+used; for `ℂ` the same needs `Complex.normSq`, not done).  What stays outside any theorem: the
 engines' native kernels (permanent, SLOS/SLAP layers, `StateVector`) and the numerical part of the MPS
 engine (tensor contraction, SVD and truncation of `update_state_2_mode`; only the two transition
 tensors it contracts with are modelled and proved) are external/numerical code — for them the model
